@@ -34,7 +34,7 @@ func mutatingOpen(flag experimentalsys.Oflag) bool {
 func isReadFile(f experimentalsys.File) bool { _, ok := f.(*readFile); return ok }
 
 // ---- what the wrapped file system / file does (assumed: their documented meaning) ----
-//@ prop C17
+//@ prop C17 C15 C16
 //@ iface (f experimentalsys.FS) OpenFile(path string, flag experimentalsys.Oflag, perm fs.FileMode) (experimentalsys.File, experimentalsys.Errno)
 //@   ensures fsMutations() == old(fsMutations()) + b2i(mutatingOpen(flag))
 //@   modifies ghost("fsMutations")
@@ -71,11 +71,32 @@ func isReadFile(f experimentalsys.File) bool { _, ok := f.(*readFile); return ok
 
 //@ iface (f experimentalsys.File) IsDir() (bool, experimentalsys.Errno)
 //@   modifies nothing
+//@ iface (f experimentalsys.File) Dev() (uint64, experimentalsys.Errno)
+//@   modifies nothing
+//@ iface (f experimentalsys.File) Ino() (sys.Inode, experimentalsys.Errno)
+//@   modifies nothing
+//@ iface (f experimentalsys.File) IsAppend() bool
+//@   modifies nothing
+//@ iface (f experimentalsys.File) SetAppend(enable bool) experimentalsys.Errno
+//@   modifies nothing
+//@ iface (f experimentalsys.File) Stat() (sys.Stat_t, experimentalsys.Errno)
+//@   modifies nothing
+//@ iface (f experimentalsys.File) Read(buf []byte) (n int, errno experimentalsys.Errno)
+//@   ensures 0 <= n && n <= len(buf)
+//@   modifies elems(buf)
+//@ iface (f experimentalsys.File) Pread(buf []byte, off int64) (n int, errno experimentalsys.Errno)
+//@   ensures 0 <= n && n <= len(buf)
+//@   modifies elems(buf)
+//@ iface (f experimentalsys.File) Seek(offset int64, whence int) (newOffset int64, errno experimentalsys.Errno)
+//@   modifies nothing
+//@ iface (f experimentalsys.File) Readdir(n int) (dirents []experimentalsys.Dirent, errno experimentalsys.Errno)
+//@   ensures verif_fresh_slice(dirents)
+//@   modifies nothing
 //@ iface (f experimentalsys.File) Write(buf []byte) (n int, errno experimentalsys.Errno)
-//@   ensures fsMutations() == old(fsMutations()) + 1
+//@   ensures fsMutations() == old(fsMutations()) + 1 && 0 <= n && n <= len(buf)
 //@   modifies ghost("fsMutations")
 //@ iface (f experimentalsys.File) Pwrite(buf []byte, off int64) (n int, errno experimentalsys.Errno)
-//@   ensures fsMutations() == old(fsMutations()) + 1
+//@   ensures fsMutations() == old(fsMutations()) + 1 && 0 <= n && n <= len(buf)
 //@   modifies ghost("fsMutations")
 //@ iface (f experimentalsys.File) Truncate(size int64) experimentalsys.Errno
 //@   ensures fsMutations() == old(fsMutations()) + 1
@@ -91,6 +112,7 @@ func isReadFile(f experimentalsys.File) bool { _, ok := f.(*readFile); return ok
 //@   modifies ghost("fsMutations")
 
 // ---- the read-only wrapper: no request that can modify reaches the wrapped FS (C17) ----
+//@ prop C17
 //@ func (r *ReadFS) OpenFile(path string, flag experimentalsys.Oflag, perm fs.FileMode) (experimentalsys.File, experimentalsys.Errno)
 //@   requires r.FS != nil
 //@   ensures[wrapped] r1 == 0 ==> isReadFile(r0)
